@@ -4,6 +4,7 @@ package main
 // goldilocks.Element, math, strconv, ...).  Everything here is the trusted base of §2.7.
 
 import (
+	"regexp"
 	"fmt"
 	"go/ast"
 	"go/token"
@@ -85,13 +86,51 @@ func (e *Engine) variadic(s *State, v Value) []Value {
 		return nil
 	}
 	if !sl.Len.IsConst() {
-		panic(execError{"variadic API argument list with symbolic length"})
+		// a length pinned by the path condition (e.g. after `if len(bits) != 4 { panic }`)
+		if c := pinnedConst(s, sl.Len); c != nil {
+			sl.Len = c
+		} else {
+			panic(execError{"variadic API argument list with symbolic length"})
+		}
 	}
 	var out []Value
 	for i := int64(0); i < sl.Len.Val.Int64(); i++ {
 		out = append(out, e.sliceAt(s, sl, Int64C(i)))
 	}
 	return out
+}
+
+// pinnedConst finds an equation  t = c  (c constant) among the path facts.
+func pinnedConst(s *State, t *Term) *Term {
+	var look func(f *Term) *Term
+	look = func(f *Term) *Term {
+		switch f.Op {
+		case "and":
+			for _, a := range f.Args {
+				if c := look(a); c != nil {
+					return c
+				}
+			}
+		case "=":
+			if f.Args[0] == t && f.Args[1].IsConst() {
+				return f.Args[1]
+			}
+			if f.Args[1] == t && f.Args[0].IsConst() {
+				return f.Args[0]
+			}
+		case "not":
+			if g := f.Args[0]; g.Op == "not" {
+				return look(g.Args[0])
+			}
+		}
+		return nil
+	}
+	for _, f := range s.pc {
+		if c := look(f); c != nil {
+			return c
+		}
+	}
+	return nil
 }
 
 // constraint: assume (SOUND) or assert (COMPLETE) an emitted circuit constraint.
@@ -229,6 +268,12 @@ func (e *Engine) modRsmart(s *State, t *Term) *Term {
 
 // toBinary: n fresh boolean wires with Σ b_i 2^i = x over the integers (n < 254).
 func (e *Engine) toBinary(s *State, f *Frame, x *ssa.Call, v *Term, n int, probe *probeRec) Value {
+	return e.toBinaryOpt(s, f, x, v, n, false, probe)
+}
+
+// toBinaryOpt: with omitModCheck (bits.OmitModulusCheck) a full-width decomposition is only
+// constrained modulo the field order: Σ b_i 2^i ≡ x (mod R), booleans b_i.
+func (e *Engine) toBinaryOpt(s *State, f *Frame, x *ssa.Call, v *Term, n int, omitModCheck bool, probe *probeRec) Value {
 	if n <= 0 || n > 254 {
 		panic(execError{"ToBinary width out of range"})
 	}
@@ -253,6 +298,11 @@ func (e *Engine) toBinary(s *State, f *Frame, x *ssa.Call, v *Term, n int, probe
 			s.assume(Or(Eq(b, Int64C(0)), Eq(b, Int64C(1))))
 			el[i] = VInt{b}
 			sum = Add(sum, Mul(b, IntC(bigPow2(uint(i)))))
+		}
+		if omitModCheck && n == 254 {
+			s.assume(Eq(v, Mod(sum, RT())))
+			s.heap[obj] = &Seq{Conc: el}
+			return VSlice{Obj: obj, Off: Int64C(0), Len: Int64C(int64(n)), Cap: Int64C(int64(n))}
 		}
 		s.assume(Eq(v, sum))
 		if n == 254 {
@@ -328,6 +378,9 @@ func (e *Engine) compilerCall(s *State, f *Frame, x *ssa.Call, comp VOpaque, nam
 			s.assume(App("deferred$"+name, SBool, Int64C(int64(recvObj.id))))
 		}
 		return VTuple{}
+	case "FieldBitLen":
+		e.note("Compiler.FieldBitLen(): 254 (BN254 scalar field)")
+		return VInt{Int64C(254)}
 	case "Field":
 		bo := newObject("field.big", nil)
 		s.heap[bo] = VInt{RT()}
@@ -633,7 +686,12 @@ func (e *Engine) externalModel(s *State, f *Frame, x *ssa.Call, name string, cal
 		return VOpaque{Kind: "bits-unconstrained"}, true
 	case "github.com/consensys/gnark/std/math/bits.ToBinary":
 		n := 254
+		omit := false
 		for _, o := range e.variadic(s, args[2]) {
+			if op, ok := o.(VOpaque); ok && op.Kind == "bits-omit-modcheck" {
+				omit = true
+				continue
+			}
 			if op, ok := o.(VOpaque); !ok || op.Kind != "nbdigits" {
 				// any other option (WithUnconstrainedOutputs, unknown ones): the output bits are not
 				// asserted boolean, so the decomposition implies no range at all
@@ -662,7 +720,9 @@ func (e *Engine) externalModel(s *State, f *Frame, x *ssa.Call, name string, cal
 			}
 		}
 		e.note("gnark bits.ToBinary: boolean wires with exact integer recomposition (n < 254)")
-		return e.toBinary(s, f, x, e.fieldVal(args[1]), n, probe), true
+		return e.toBinaryOpt(s, f, x, e.fieldVal(args[1]), n, omit, probe), true
+	case "github.com/consensys/gnark/std/math/bits.OmitModulusCheck":
+		return VOpaque{Kind: "bits-omit-modcheck"}, true
 	case "github.com/consensys/gnark/std/rangecheck.New":
 		api := args[0].(VOpaque)
 		info := api.Data.(*apiInfo)
@@ -670,6 +730,125 @@ func (e *Engine) externalModel(s *State, f *Frame, x *ssa.Call, name string, cal
 		return VOpaque{Kind: "rangechecker", Data: Ite(info.isRC, Int64C(0), Ite(info.isCommitter, Int64C(1), Int64C(2)))}, true
 	case "github.com/consensys/gnark/constraint/solver.RegisterHint":
 		return VTuple{}, true
+	// ---- regexp, strconv on symbolic strings
+	case "regexp.MustCompile", "regexp.Compile":
+		pat, ok := args[0].(VStr)
+		if !ok || pat.T.Op != "sconst" {
+			panic(execError{"regexp.MustCompile of a non-constant pattern"})
+		}
+		cr, err := compileGoRegex(pat.T.Name)
+		if err != nil {
+			panic(execError{err.Error()})
+		}
+		e.regexSeq++
+		rv := VOpaque{Kind: "regexp", ID: 1000000 + e.regexSeq, Data: cr}
+		if name == "regexp.Compile" {
+			return VTuple{[]Value{rv, VIface{}}}, true
+		}
+		return rv, true
+	case "(*regexp.Regexp).SubexpNames":
+		cr := args[0].(VOpaque).Data.(*compiledRe)
+		obj := newObject("subexpnames", nil)
+		var el []Value
+		for _, nm := range cr.names {
+			el = append(el, VStr{StrC(nm)})
+		}
+		s.heap[obj] = &Seq{Conc: el}
+		return VSlice{Obj: obj, Off: Int64C(0), Len: Int64C(int64(len(el))), Cap: Int64C(int64(len(el)))}, true
+	case "(*regexp.Regexp).MatchString":
+		cr := args[0].(VOpaque).Data.(*compiledRe)
+		e.note("regexp: the code's patterns are translated to SMT-LIB regular languages (RE2 syntax subset; unanchored search = Σ* r Σ*)")
+		return VBool{cr.matchPred(args[1].(VStr).T)}, true
+	case "(*regexp.Regexp).FindStringSubmatch":
+		cr := args[0].(VOpaque).Data.(*compiledRe)
+		st := args[1].(VStr).T
+		e.note("regexp: the code's patterns are translated to SMT-LIB regular languages (RE2 syntax subset; unanchored search = Σ* r Σ*)")
+		e.note("regexp.FindStringSubmatch: the submatches are any decomposition s = pre ++ pieces ++ post of a top-level-concatenation pattern (Go's leftmost-first choice is one of them)")
+		var groups, facts []*Term
+		structural := false
+		if segs, ok := segmentsOf(s.pc, st); ok {
+			if str, conc := allLiteral(segs); conc {
+				// concrete subject: Go's own regexp decides
+				m := regexp.MustCompile(cr.pattern).FindStringSubmatch(str)
+				if m == nil {
+					return VSlice{Off: Int64C(0), Len: Int64C(0), Cap: Int64C(0)}, true
+				}
+				for _, g := range m {
+					groups = append(groups, StrC(g))
+				}
+				structural = true
+			} else if cr.structNoMatch(segs) {
+				// a literal piece of the pattern cannot occur anywhere in the subject
+				e.note("regexp non-match on a structured subject: a literal piece of the pattern has no possible occurrence (alphabet walk)")
+				s.assume(Not(cr.matchPred(st)))
+				return VSlice{Off: Int64C(0), Len: Int64C(0), Cap: Int64C(0)}, true
+			} else if gs, ok := cr.structMatch(segs); ok {
+				groups, structural = gs, true
+				e.note("regexp.FindStringSubmatch on a structured subject: decided by a deterministic walk of the pattern (delimited greedy pieces) from position 0")
+			} else if e.focusedNoMatch(s.pc, segs, cr) {
+				e.note("regexp non-match on a structured subject: refuted by a focused query (membership of the concatenation in Σ* r Σ* under the membership facts of its variables only)")
+				s.assume(Not(cr.matchPred(st)))
+				return VSlice{Off: Int64C(0), Len: Int64C(0), Cap: Int64C(0)}, true
+			} else if gs, ok := cr.structMatch(segs); ok {
+				// the subject is a concatenation of literals and variables of known alphabet and the walk of
+				// the pattern from position 0 succeeds: this is the leftmost match and its submatches are unique
+				groups, structural = gs, true
+				e.note("regexp.FindStringSubmatch on a structured subject: decided by a deterministic walk of the pattern (delimited greedy pieces) from position 0")
+			}
+		}
+		if !structural {
+			var err error
+			groups, facts, err = cr.submatches(st)
+			if err != nil {
+				panic(execError{err.Error()})
+			}
+		}
+		obj := newObject("submatch@"+e.posOf(x.Pos()), nil)
+		var el []Value
+		for _, g := range groups {
+			el = append(el, VStr{g})
+		}
+		s.heap[obj] = &Seq{Conc: el}
+		if structural {
+			if _, conc := st, st.Op == "sconst"; !conc {
+				s.assume(cr.matchPred(st)) // a consequence of the walk, stated for the solver
+			}
+		} else {
+			e.alt = &altResult{cond: cr.matchPred(st), val: VSlice{Off: Int64C(0), Len: Int64C(0), Cap: Int64C(0)}, facts: facts}
+		}
+		return VSlice{Obj: obj, Off: Int64C(0), Len: Int64C(int64(len(el))), Cap: Int64C(int64(len(el)))}, true
+	case "strings.Split":
+		st, sep := args[0].(VStr).T, args[1].(VStr).T
+		e.note("strings.Split / strings.TrimSpace: uninterpreted (splitlen, splitpiece, trimspace); contracts state what they need about the pieces as an explicit premise")
+		n := App("str.splitlen", SInt, st, sep)
+		s.assume(Le(Int64C(1), n))
+		s.assume(Lt(n, IntC(bigPow2(62))))
+		sq := &Seq{Sym: func(i *Term) Value { return VStr{App("str.splitpiece", SStr, st, sep, i)} }, Desc: "strings.Split"}
+		return VSlice{Pure: sq, Off: Int64C(0), Len: n, Cap: n}, true
+	case "strings.TrimSpace":
+		return VStr{App("str.trimspace", SStr, args[0].(VStr).T)}, true
+	case "strconv.Atoi":
+		st := args[0].(VStr).T
+		v := StrToInt(st)
+		e.note("strconv.Atoi: exact on digit strings (value = str.to_int, error iff above MaxInt64); any other string (sign, malformed) yields an unconstrained outcome")
+		ok := And(StrInRe(st, reDigits), Le(v, IntC(new(big.Int).Sub(bigPow2(63), bigOne))))
+		uv := Fresh("atoi", SInt)
+		s.assume(And(Le(Neg(IntC(bigPow2(63))), uv), Lt(uv, IntC(bigPow2(63)))))
+		e.alt = &altResult{cond: ok, val: VTuple{[]Value{VInt{uv}, VIface{NilSym: Fresh("atoi.errnil", SBool)}}}}
+		return VTuple{[]Value{VInt{v}, VIface{}}}, true
+	case "strconv.ParseUint":
+		st := args[0].(VStr).T
+		base, bitSize := asInt(args[1]), asInt(args[2])
+		if !base.IsConst() || base.Val.Int64() != 10 || !bitSize.IsConst() || bitSize.Val.Int64() < 1 || bitSize.Val.Int64() > 64 {
+			panic(execError{"strconv.ParseUint with a base other than 10 or a symbolic bit size"})
+		}
+		v := StrToInt(st)
+		e.note("strconv.ParseUint(s, 10, n): succeeds exactly on digit strings below 2^n with value str.to_int(s)")
+		ok := And(StrInRe(st, reDigits), Lt(v, IntC(bigPow2(uint(bitSize.Val.Int64())))))
+		uv := Fresh("parseuint", SInt)
+		s.assume(And(Le(Int64C(0), uv), Lt(uv, IntC(bigPow2(64)))))
+		e.alt = &altResult{cond: ok, val: VTuple{[]Value{VInt{uv}, VIface{NilSym: BoolC(false)}}}}
+		return VTuple{[]Value{VInt{v}, VIface{}}}, true
 	// ---- math, bits, os, fmt, strconv, sync
 	case "math.Pow":
 		a, ok1 := args[0].(VFloat)
@@ -785,4 +964,53 @@ func (c *evalCtx) evalAddrExpr(x interface{}) VPtr {
 		}
 	}
 	panic(execError{"modifies: unsupported lvalue"})
+}
+
+// focusedNoMatch: the path facts that speak only about the variables of the subject already exclude a
+// match anywhere in the subject (a pure regular-language query, no word equation).
+func (e *Engine) focusedNoMatch(pc []*Term, segs []segment, cr *compiledRe) bool {
+	vars := map[*Term]bool{}
+	var parts []*Term
+	for _, sg := range segs {
+		if sg.v != nil {
+			vars[sg.v] = true
+			parts = append(parts, sg.v)
+		} else {
+			parts = append(parts, StrC(sg.lit))
+		}
+	}
+	var onlyVars func(t *Term) bool
+	onlyVars = func(t *Term) bool {
+		if t.Op == "var" {
+			return vars[t]
+		}
+		if t.Op == "bound" || t.Op == "forall" || t.Op == "exists" || t.Op == "app" {
+			return false
+		}
+		for _, a := range t.Args {
+			if !onlyVars(a) {
+				return false
+			}
+		}
+		return true
+	}
+	var hyps []*Term
+	var add func(f *Term)
+	add = func(f *Term) {
+		if f.Op == "and" {
+			for _, a := range f.Args {
+				add(a)
+			}
+			return
+		}
+		if onlyVars(f) {
+			hyps = append(hyps, f)
+		}
+	}
+	for _, f := range pc {
+		add(f)
+	}
+	hyps = append(hyps, cr.matchPred(StrConcat(parts...)))
+	e.pruneCalls++
+	return !e.quickSat(hyps)
 }
